@@ -34,9 +34,10 @@ PPL::Pointset_Powerset<PPL::NNC_Polyhedron>
 ::difference_assign(const Pointset_Powerset& y) {
   Pointset_Powerset& x = *this;
   using std::swap;
-  // Ensure omega-reduction.
+  // Ensure omega-reduction of `x' only: reducing the (const) subtrahend `y'
+  // is a mere optimization and, when the computation is being abandoned,
+  // would collapse (i.e., enlarge) `y' in place, losing points of `x \ y'.
   x.omega_reduce();
-  y.omega_reduce();
   Sequence new_sequence = x.sequence;
   for (const_iterator yi = y.begin(), y_end = y.end(); yi != y_end; ++yi) {
     const NNC_Polyhedron& ph_yi = yi->pointset();
@@ -278,9 +279,10 @@ PPL::Pointset_Powerset<PPL::Grid>
 ::difference_assign(const Pointset_Powerset& y) {
   Pointset_Powerset& x = *this;
   using std::swap;
-  // Ensure omega-reduction.
+  // Ensure omega-reduction of `x' only: reducing the (const) subtrahend `y'
+  // is a mere optimization and, when the computation is being abandoned,
+  // would collapse (i.e., enlarge) `y' in place, losing points of `x \ y'.
   x.omega_reduce();
-  y.omega_reduce();
   Sequence new_sequence = x.sequence;
   for (const_iterator yi = y.begin(), y_end = y.end(); yi != y_end; ++yi) {
     const Grid& gr_yi = yi->pointset();
